@@ -17,6 +17,7 @@
 -/
 import Z80.Lemmas.Frame
 import Z80.Lemmas.Pc
+import Z80.Props.C02
 namespace Z80
 open Spec
 
@@ -151,6 +152,68 @@ theorem C01_inc16 (r : R16) (len : UInt16) (x : Arch) (hr : r ≠ .af) :
     case af => exact absurd rfl hr
     case sp => rfl
     all_goals exact mkWord_hi_lo _
+
+theorem Regs.getBC_setBC_hl (r : Regs) (v : UInt16) : (r.setHL v).getHL = v := mkWord_hi_lo v
+
+/-! ### arithmetic results written to registers (values from C02's theorems) -/
+
+/-- 8-bit arithmetic/logic: A receives the specified result of `A op operand` (CP leaves A alone) -/
+theorem C01_alu (src : Op8) (len : UInt16) (x : Arch) :
+    let a := x.reg.a.toNat
+    let n := (x.readOp src).toNat
+    let c := Spec.b2n x.reg.flags.c
+    (exec (.alu .add src) len x).reg.a.toNat = (Spec.addW 8 a n 0).r ∧
+    (exec (.alu .adc src) len x).reg.a.toNat = (Spec.addW 8 a n c).r ∧
+    (exec (.alu .sub src) len x).reg.a.toNat = (Spec.subW 8 a n 0).r ∧
+    (exec (.alu .sbc src) len x).reg.a.toNat = (Spec.subW 8 a n c).r ∧
+    (exec (.alu .and src) len x).reg.a.toNat = a &&& n ∧
+    (exec (.alu .or src) len x).reg.a.toNat = a ||| n ∧
+    (exec (.alu .xor src) len x).reg.a.toNat = a ^^^ n ∧
+    (exec (.alu .cp src) len x).reg.a = x.reg.a := by
+  refine ⟨?_, ?_, ?_, ?_, ?_, ?_, ?_, rfl⟩
+  · exact (C02_add x.reg.a (x.readOp src) x.reg.flags).1
+  · exact (C02_adc x.reg.a (x.readOp src) x.reg.flags).1
+  · exact (C02_sub x.reg.a (x.readOp src) x.reg.flags).1
+  · exact (C02_sbc x.reg.a (x.readOp src) x.reg.flags).1
+  · exact (C02_and x.reg.a (x.readOp src) x.reg.flags).1
+  · exact (C02_or x.reg.a (x.readOp src) x.reg.flags).1
+  · exact (C02_xor x.reg.a (x.readOp src) x.reg.flags).1
+
+/-- 16-bit arithmetic: HL (IX, IY) receives the sum / difference modulo 65,536 -/
+theorem C01_arith16 (src : R16) (len : UInt16) (x : Arch) :
+    let h := x.reg.getHL.toNat
+    let n := (x.reg.get16 src).toNat
+    let c := Spec.b2n x.reg.flags.c
+    (exec (.add16 .hl src) len x).reg.getHL.toNat = (Spec.addW 16 h n 0).r ∧
+    (exec (.adc16 src) len x).reg.getHL.toNat = (Spec.addW 16 h n c).r ∧
+    (exec (.sbc16 src) len x).reg.getHL.toNat = (Spec.subW 16 h n c).r := by
+  refine ⟨?_, ?_, ?_⟩
+  · have := (C02_add16 x.reg.getHL (x.reg.get16 src) x.reg.flags).1
+    show ((x.reg.setHL (Alu.add16 x.reg.getHL (x.reg.get16 src) x.reg.flags).1).getHL).toNat = _
+    rw [Regs.getBC_setBC_hl]
+    exact this
+  · have := (C02_adc16 x.reg.getHL (x.reg.get16 src) x.reg.flags).1
+    show ((x.reg.setHL (Alu.adc16 x.reg.getHL (x.reg.get16 src) x.reg.flags).1).getHL).toNat = _
+    rw [Regs.getBC_setBC_hl]
+    exact this
+  · have := (C02_sbc16 x.reg.getHL (x.reg.get16 src) x.reg.flags).1
+    show ((x.reg.setHL (Alu.sbc16 x.reg.getHL (x.reg.get16 src) x.reg.flags).1).getHL).toNat = _
+    rw [Regs.getBC_setBC_hl]
+    exact this
+
+/-- the remaining single-register results: INC/DEC r, NEG, CPL, LD A,I / LD A,R / LD I,A, DJNZ's B -/
+theorem C01_misc (r : R8) (e : UInt8) (len : UInt16) (x : Arch) :
+    (exec (.inc8 (.reg r)) len x).reg.get8 r = x.reg.get8 r + 1 ∧
+    (exec (.dec8 (.reg r)) len x).reg.get8 r = x.reg.get8 r - 1 ∧
+    (exec .neg len x).reg.a = 0 - x.reg.a ∧ (exec .cpl len x).reg.a = ~~~x.reg.a ∧
+    (exec .ldAI len x).reg.a = x.reg.i ∧ (exec .ldAR len x).reg.a = x.reg.r ∧ (exec .ldIA len x).reg.i = x.reg.a ∧
+    (exec (.djnz e) len x).reg.b = x.reg.b - 1 := by
+  refine ⟨?_, ?_, ?_, rfl, rfl, rfl, rfl, ?_⟩
+  · cases r <;> rfl
+  · cases r <;> rfl
+  · show ~~~x.reg.a + 1 = 0 - x.reg.a
+    apply UInt8.eq_of_toBitVec_eq; simp [BitVec.neg_eq_not_add]
+  · simp only [exec]; split <;> rfl
 
 /-- summary of the proved part of C01 (see the header for what is missing) -/
 theorem C01_partial (i : Instr) (len : UInt16) (x : Arch) :
